@@ -72,10 +72,9 @@ func concProgram(t jsonline.Template, g int, iters int) string {
 			}
 		case 5:
 			var out bytes.Buffer
-			bom := ""
-			if g%3 == 0 {
-				bom = "\xef\xbb\xbf" // a byte order mark in front of the first line of some goroutines' inputs
-			}
+			// a byte order mark in front of the first line of every input (not JSON: the line is rejected — by every
+			// importer alike, the first of the process included)
+			bom := "\xef\xbb\xbf"
 			in := bom + fmt.Sprintf("{\"a\":%d}\n{\"a\":\"bad\"}\n{\"bin\":\"AQI=\",\"d\":%d,\"dd\":%d}\n{\"d\":\"%s\",\"pad\":\"%s\"}\n", g, 1632518460+i, 1632518460+g*86400,
 				time.Unix(1600000000+int64(g)*3600+int64(i), 0).UTC().Format(time.RFC3339), strings.Repeat(string(rune('a'+g%26)), 200+g))
 			imp := t.GetImporter(strings.NewReader(in))
